@@ -313,6 +313,135 @@ fn gen_bad_config(ch: &mut Chooser, kind: Kind, cur: (usize, usize, usize)) -> (
     }
 }
 
+
+// ======================================================================
+// History dependence of a verdict (C05): when a call on a long-lived object panics or is judged wrong by R2,
+// the current round is replayed on a freshly constructed object of the same kind; if the fresh object
+// answers differently, the answer depended on what the object did before.
+
+#[derive(Clone, Debug, PartialEq)]
+pub enum Outcome {
+    Ok,
+    Err(Error),
+    Panic,
+}
+
+pub fn outcome_of<T>(res: &Result<Result<T, Error>, String>) -> Outcome {
+    match res {
+        Ok(Ok(_)) => Outcome::Ok,
+        Ok(Err(e)) => Outcome::Err(*e),
+        Err(_) => Outcome::Panic,
+    }
+}
+
+pub enum EncCall<'a> {
+    Add(&'a [u8]),
+    Encode,
+    Reset(usize, usize, usize),
+}
+
+fn enc_history_props(ctx: &mut Ctx, st: &EncState, call: &EncCall, got: &Outcome) -> Vec<&'static str> {
+    let mut extra = Vec::new();
+    if let (EncCall::Add(shard), Outcome::Err(Error::DifferentShardSize { .. } | Error::InvalidShardSize { .. })) = (call, got) {
+        if shard.len() == st.cfg.2 {
+            extra.push("C04"); // a shard of exactly the configured size is refused for its size
+        }
+    }
+    if !(st.has_history || st.rounds > 0 || st.failed_ever) {
+        return extra;
+    }
+    let (k, r, b) = st.cfg;
+    let fresh = ctx.shadow(|| -> Result<(), Error> {
+        let mut enc = enc_new(st.kind, k, r, b, None)?;
+        for s in &st.shards {
+            enc.add(s)?;
+        }
+        match call {
+            EncCall::Add(shard) => enc.add(shard),
+            EncCall::Encode => enc.encode().map(|_| ()),
+            EncCall::Reset(k2, r2, b2) => enc.reset(*k2, *r2, *b2),
+        }
+    });
+    let fresh = outcome_of(&fresh);
+    ctx.count("r3.verdict_replays_on_fresh_object");
+    if &fresh != got {
+        extra.push("C05");
+    }
+    extra
+}
+
+pub enum DecCall<'a> {
+    Add(bool, usize, &'a [u8]),
+    Decode,
+    Reset(usize, usize, usize),
+}
+
+fn dec_history_props(ctx: &mut Ctx, st: &DecState, call: &DecCall, got: &Outcome) -> Vec<&'static str> {
+    let mut extra = Vec::new();
+    if let (DecCall::Add(_, _, shard), Outcome::Err(Error::DifferentShardSize { .. } | Error::InvalidShardSize { .. })) = (call, got) {
+        if shard.len() == st.cfg.2 {
+            extra.push("C04");
+        }
+    }
+    if !(st.has_history || st.rounds > 0 || st.failed_ever) {
+        return extra;
+    }
+    let (k, r, b) = st.cfg;
+    let fresh = ctx.shadow(|| -> Result<(), Error> {
+        let mut dec = dec_new(st.kind, k, r, b, None)?;
+        for a in &st.adds {
+            if a.is_rec {
+                dec.add_recovery(a.index, &a.data)?;
+            } else {
+                dec.add_original(a.index, &a.data)?;
+            }
+        }
+        match call {
+            DecCall::Add(is_rec, index, shard) => {
+                if *is_rec {
+                    dec.add_recovery(*index, shard)
+                } else {
+                    dec.add_original(*index, shard)
+                }
+            }
+            DecCall::Decode => dec.decode().map(|_| ()),
+            DecCall::Reset(k2, r2, b2) => dec.reset(*k2, *r2, *b2),
+        }
+    });
+    let fresh = outcome_of(&fresh);
+    ctx.count("r3.verdict_replays_on_fresh_object");
+    if &fresh != got {
+        extra.push("C05");
+    }
+    extra
+}
+
+fn report_panic_x(ctx: &mut Ctx, kind: &str, op: &'static str, call: &str, failed_ever: bool, msg: &str, extra: &[&'static str]) -> bool {
+    let mut props = panic_props(op, failed_ever);
+    for e in extra {
+        if !props.contains(e) {
+            props.push(e);
+        }
+    }
+    ctx.viol(
+        &props,
+        "no-panic",
+        format!("panic/{op}/{}{}", panic_sig(msg), if failed_ever { "/after-failed-call" } else { "" }),
+        format!("{kind}.{call} panicked: {msg}{}", if extra.contains(&"C05") { " (a freshly constructed object given the same round does not)" } else { "" }),
+        true,
+    )
+}
+
+fn verdict_props_x(op: &'static str, failed_ever: bool, extra: &[&'static str]) -> Vec<&'static str> {
+    let mut props = verdict_props(op, failed_ever);
+    for e in extra {
+        if !props.contains(e) {
+            props.push(e);
+        }
+    }
+    props
+}
+
 // ======================================================================
 // ENCODER HISTORIES
 
@@ -405,14 +534,16 @@ pub fn run_encoder(ch: &mut Chooser, ctx: &mut Ctx) {
                     let res = match res {
                         Ok(v) => v,
                         Err(msg) => {
-                            report_panic(ctx, &st.kind.name(), "add", &format!("add_original_shard(len {b}) #{idx}"), st.failed_ever, &msg);
+                            let extra = enc_history_props(ctx, &st, &EncCall::Add(&shard), &Outcome::Panic);
+                            report_panic_x(ctx, &st.kind.name(), "add", &format!("add_original_shard(len {b}) #{idx}"), st.failed_ever, &msg, &extra);
                             return;
                         }
                     };
                     ev!(ctx, "#{op_no} add_original_shard([{}; {b}]) #{idx} -> {res:?}", hex_prefix(&shard));
                     ctx.hash.feed_u64(res.as_ref().err().map_or(0, err_code));
                     if let Some(why) = judge(&res, &adm) {
-                        ctx.viol(&verdict_props("add", st.failed_ever), "verdict", format!("verdict/enc.add/{}", res.as_ref().err().map_or("Ok", err_name)), format!("{}{:?}.add_original_shard(valid shard #{idx}) {why}", st.kind.name(), st.cfg), true);
+                        let extra = enc_history_props(ctx, &st, &EncCall::Add(&shard), &res.map_or_else(Outcome::Err, |()| Outcome::Ok));
+                        ctx.viol(&verdict_props_x("add", st.failed_ever, &extra), "verdict", format!("verdict/enc.add/{}", res.as_ref().err().map_or("Ok", err_name)), format!("{}{:?}.add_original_shard(valid shard #{idx}) {why}", st.kind.name(), st.cfg), true);
                         return;
                     }
                     if alloc_check(ctx, st.kind, "add_original_shard", "round operations never allocate", &acc) {
@@ -451,7 +582,8 @@ pub fn run_encoder(ch: &mut Chooser, ctx: &mut Ctx) {
                 let res = match res {
                     Ok(v) => v,
                     Err(msg) => {
-                        report_panic(ctx, &st.kind.name(), "add", &format!("add_original_shard(len {len})"), st.failed_ever, &msg);
+                        let extra = enc_history_props(ctx, &st, &EncCall::Add(&shard), &Outcome::Panic);
+                        report_panic_x(ctx, &st.kind.name(), "add", &format!("add_original_shard(len {len})"), st.failed_ever, &msg, &extra);
                         return;
                     }
                 };
@@ -459,7 +591,8 @@ pub fn run_encoder(ch: &mut Chooser, ctx: &mut Ctx) {
                 ctx.hash.feed_u64(res.as_ref().err().map_or(0, err_code));
                 ctx.count("fault.F10.bad_length");
                 if let Some(why) = judge(&res, &adm) {
-                    ctx.viol(&verdict_props("add", st.failed_ever), "verdict", format!("verdict/enc.add-badlen/{}", res.as_ref().err().map_or("Ok", err_name)), format!("{}{:?}.add_original_shard(shard of {len} bytes) {why}", st.kind.name(), st.cfg), true);
+                    let extra = enc_history_props(ctx, &st, &EncCall::Add(&shard), &res.map_or_else(Outcome::Err, |()| Outcome::Ok));
+                    ctx.viol(&verdict_props_x("add", st.failed_ever, &extra), "verdict", format!("verdict/enc.add-badlen/{}", res.as_ref().err().map_or("Ok", err_name)), format!("{}{:?}.add_original_shard(shard of {len} bytes) {why}", st.kind.name(), st.cfg), true);
                     return;
                 }
                 st.failed_round = true;
@@ -480,14 +613,15 @@ pub fn run_encoder(ch: &mut Chooser, ctx: &mut Ctx) {
                 let res = match res {
                     Ok(v) => v,
                     Err(msg) => {
-                        report_panic(ctx, &st.kind.name(), "reset", &format!("reset{next:?}"), st.failed_ever, &msg);
+                        let extra = enc_history_props(ctx, &st, &EncCall::Reset(next.0, next.1, next.2), &Outcome::Panic);
+                        report_panic_x(ctx, &st.kind.name(), "reset", &format!("reset{next:?}"), st.failed_ever, &msg, &extra);
                         return;
                     }
                 };
                 ev!(ctx, "#{op_no} reset{next:?} -> {res:?}");
                 ctx.hash.feed_u64(res.as_ref().err().map_or(0, err_code));
                 if let Some(why) = judge(&res, &[]) {
-                    ctx.viol(&verdict_props("reset", st.failed_ever), "verdict", format!("verdict/reset/{}", res.as_ref().err().map_or("Ok", err_name)), format!("{}{:?}.reset{next:?} {why}", st.kind.name(), st.cfg), true);
+                    { let extra = enc_history_props(ctx, &st, &EncCall::Reset(next.0, next.1, next.2), &res.map_or_else(Outcome::Err, |()| Outcome::Ok)); ctx.viol(&verdict_props_x("reset", st.failed_ever, &extra), "verdict", format!("verdict/reset/{}", res.as_ref().err().map_or("Ok", err_name)), format!("{}{:?}.reset{next:?} {why}", st.kind.name(), st.cfg), true); }
                     return;
                 }
                 if covers(st.held, need) {
@@ -517,7 +651,8 @@ pub fn run_encoder(ch: &mut Chooser, ctx: &mut Ctx) {
                 let res = match res {
                     Ok(v) => v,
                     Err(msg) => {
-                        report_panic(ctx, &st.kind.name(), "reset", &format!("reset{next:?}"), st.failed_ever, &msg);
+                        let extra = enc_history_props(ctx, &st, &EncCall::Reset(next.0, next.1, next.2), &Outcome::Panic);
+                        report_panic_x(ctx, &st.kind.name(), "reset", &format!("reset{next:?}"), st.failed_ever, &msg, &extra);
                         return;
                     }
                 };
@@ -525,7 +660,7 @@ pub fn run_encoder(ch: &mut Chooser, ctx: &mut Ctx) {
                 ctx.hash.feed_u64(res.as_ref().err().map_or(0, err_code));
                 ctx.count(if envelope::supported(st.kind.layer.family(), next.0, next.1) { "fault.F10.reset_bad_size" } else { "fault.F10.reset_bad_counts" });
                 if let Some(why) = judge(&res, &adm) {
-                    ctx.viol(&verdict_props("reset", st.failed_ever), "verdict", format!("verdict/reset-invalid/{}", res.as_ref().err().map_or("Ok", err_name)), format!("{}{:?}.reset{next:?} {why}", st.kind.name(), st.cfg), true);
+                    { let extra = enc_history_props(ctx, &st, &EncCall::Reset(next.0, next.1, next.2), &res.map_or_else(Outcome::Err, |()| Outcome::Ok)); ctx.viol(&verdict_props_x("reset", st.failed_ever, &extra), "verdict", format!("verdict/reset-invalid/{}", res.as_ref().err().map_or("Ok", err_name)), format!("{}{:?}.reset{next:?} {why}", st.kind.name(), st.cfg), true); }
                     return;
                 }
                 st.failed_round = true;
@@ -560,7 +695,8 @@ pub fn run_encoder(ch: &mut Chooser, ctx: &mut Ctx) {
                 let res = match res {
                     Ok(v) => v,
                     Err(msg) => {
-                        report_panic(ctx, &new_kind.name(), "new", &format!("new{next:?} on recycled work"), false, &msg);
+                        let fresh_ok = recycled && matches!(ctx.shadow(|| enc_new(new_kind, next.0, next.1, next.2, None).map(|_| ())), Ok(Ok(())));
+                        report_panic_x(ctx, &new_kind.name(), "new", &format!("new{next:?} on recycled work"), false, &msg, if fresh_ok { &["C05"] } else { &[] });
                         return;
                     }
                 };
@@ -568,7 +704,8 @@ pub fn run_encoder(ch: &mut Chooser, ctx: &mut Ctx) {
                 match res {
                     Ok(o) => obj = o,
                     Err(e) => {
-                        ctx.viol(&["C06", "C08"], "verdict", format!("verdict/new/{}", err_name(&e)), format!("{}::new{next:?} returned Err({e:?}) for a supported configuration", new_kind.name()), true);
+                        let fresh_ok = recycled && matches!(ctx.shadow(|| enc_new(new_kind, next.0, next.1, next.2, None).map(|_| ())), Ok(Ok(())));
+                        ctx.viol(if fresh_ok { &["C06", "C08", "C05"] } else { &["C06", "C08"] }, "verdict", format!("verdict/new/{}", err_name(&e)), format!("{}::new{next:?} returned Err({e:?}) for a supported configuration", new_kind.name()), true);
                         return;
                     }
                 }
@@ -666,13 +803,15 @@ fn enc_encode(ch: &mut Chooser, ctx: &mut Ctx, obj: &mut dyn DynEncoder, st: &mu
                 "result" => "result",
                 _ => "drop",
             };
-            return report_panic(ctx, &st.kind.name(), op, &format!("encode() [{stage}] with {fill}/{k} shards"), st.failed_ever, &msg);
+            let extra = enc_history_props(ctx, st, &EncCall::Encode, &Outcome::Panic);
+            return report_panic_x(ctx, &st.kind.name(), op, &format!("encode() [{stage}] with {fill}/{k} shards"), st.failed_ever, &msg, &extra);
         }
     };
     ev!(ctx, "#{op_no} encode() with {fill}/{k} shards -> {:?}", out.as_ref().map(|p| p.as_ref().map(|v| v.len())));
     ctx.hash.feed_u64(out.as_ref().err().map_or(0, err_code));
     if let Some(why) = judge(&out, &adm) {
-        return ctx.viol(&verdict_props("encode", st.failed_ever), "verdict", format!("verdict/encode/{}", out.as_ref().err().map_or("Ok", err_name)), format!("{}{:?}.encode() with {fill} of {k} shards added {why}", st.kind.name(), st.cfg), true);
+        let extra = enc_history_props(ctx, st, &EncCall::Encode, &out.as_ref().map_or_else(|e| Outcome::Err(*e), |_| Outcome::Ok));
+        return ctx.viol(&verdict_props_x("encode", st.failed_ever, &extra), "verdict", format!("verdict/encode/{}", out.as_ref().err().map_or("Ok", err_name)), format!("{}{:?}.encode() with {fill} of {k} shards added {why}", st.kind.name(), st.cfg), true);
     }
     let probed = match out {
         Err(_) => {
@@ -996,14 +1135,16 @@ pub fn run_decoder(ch: &mut Chooser, ctx: &mut Ctx) {
                     let res = match res {
                         Ok(v) => v,
                         Err(msg) => {
-                            report_panic(ctx, &st.kind.name(), "add", &format!("add_{}_shard({index}, len {b})", if is_rec { "recovery" } else { "original" }), st.failed_ever, &msg);
+                            let extra = dec_history_props(ctx, &st, &DecCall::Add(is_rec, index, &data), &Outcome::Panic);
+                            report_panic_x(ctx, &st.kind.name(), "add", &format!("add_{}_shard({index}, len {b})", if is_rec { "recovery" } else { "original" }), st.failed_ever, &msg, &extra);
                             return;
                         }
                     };
                     ev!(ctx, "#{op_no} add_{}_shard({index}) -> {res:?}", if is_rec { "recovery" } else { "original" });
                     ctx.hash.feed_u64(index as u64 * 2 + u64::from(is_rec));
                     if let Some(why) = judge(&res, &[]) {
-                        ctx.viol(&verdict_props("add", st.failed_ever), "verdict", format!("verdict/dec.add/{}", res.as_ref().err().map_or("Ok", err_name)), format!("{}{:?}.add_{}_shard({index}, valid shard) {why}", st.kind.name(), st.cfg, if is_rec { "recovery" } else { "original" }), true);
+                        let extra = dec_history_props(ctx, &st, &DecCall::Add(is_rec, index, &data), &res.map_or_else(Outcome::Err, |()| Outcome::Ok));
+                        ctx.viol(&verdict_props_x("add", st.failed_ever, &extra), "verdict", format!("verdict/dec.add/{}", res.as_ref().err().map_or("Ok", err_name)), format!("{}{:?}.add_{}_shard({index}, valid shard) {why}", st.kind.name(), st.cfg, if is_rec { "recovery" } else { "original" }), true);
                         return;
                     }
                     if alloc_check(ctx, st.kind, "add_*_shard", "round operations never allocate", &acc) {
@@ -1063,7 +1204,8 @@ pub fn run_decoder(ch: &mut Chooser, ctx: &mut Ctx) {
                 let res = match res {
                     Ok(v) => v,
                     Err(msg) => {
-                        report_panic(ctx, &st.kind.name(), "add", &format!("add_{}_shard({index}, len {len}) [{what}]", if is_rec { "recovery" } else { "original" }), st.failed_ever, &msg);
+                        let extra = dec_history_props(ctx, &st, &DecCall::Add(is_rec, index, &data), &Outcome::Panic);
+                        report_panic_x(ctx, &st.kind.name(), "add", &format!("add_{}_shard({index}, len {len}) [{what}]", if is_rec { "recovery" } else { "original" }), st.failed_ever, &msg, &extra);
                         return;
                     }
                 };
@@ -1075,7 +1217,8 @@ pub fn run_decoder(ch: &mut Chooser, ctx: &mut Ctx) {
                     _ => "fault.F7.wrong_length",
                 });
                 if let Some(why) = judge(&res, &adm) {
-                    ctx.viol(&verdict_props("add", st.failed_ever), "verdict", format!("verdict/dec.add-{what}/{}", res.as_ref().err().map_or("Ok", err_name)), format!("{}{:?}.add_{}_shard({index}, shard of {len} bytes) [{what}] {why}", st.kind.name(), st.cfg, if is_rec { "recovery" } else { "original" }), true);
+                    let extra = dec_history_props(ctx, &st, &DecCall::Add(is_rec, index, &data), &res.map_or_else(Outcome::Err, |()| Outcome::Ok));
+                    ctx.viol(&verdict_props_x("add", st.failed_ever, &extra), "verdict", format!("verdict/dec.add-{what}/{}", res.as_ref().err().map_or("Ok", err_name)), format!("{}{:?}.add_{}_shard({index}, shard of {len} bytes) [{what}] {why}", st.kind.name(), st.cfg, if is_rec { "recovery" } else { "original" }), true);
                     return;
                 }
                 st.failed_round = true;
@@ -1096,14 +1239,15 @@ pub fn run_decoder(ch: &mut Chooser, ctx: &mut Ctx) {
                 let res = match res {
                     Ok(v) => v,
                     Err(msg) => {
-                        report_panic(ctx, &st.kind.name(), "reset", &format!("reset{next:?}"), st.failed_ever, &msg);
+                        let extra = dec_history_props(ctx, &st, &DecCall::Reset(next.0, next.1, next.2), &Outcome::Panic);
+                        report_panic_x(ctx, &st.kind.name(), "reset", &format!("reset{next:?}"), st.failed_ever, &msg, &extra);
                         return;
                     }
                 };
                 ev!(ctx, "#{op_no} reset{next:?} -> {res:?}");
                 ctx.hash.feed_u64(res.as_ref().err().map_or(0, err_code));
                 if let Some(why) = judge(&res, &[]) {
-                    ctx.viol(&verdict_props("reset", st.failed_ever), "verdict", format!("verdict/reset/{}", res.as_ref().err().map_or("Ok", err_name)), format!("{}{:?}.reset{next:?} {why}", st.kind.name(), st.cfg), true);
+                    { let extra = dec_history_props(ctx, &st, &DecCall::Reset(next.0, next.1, next.2), &res.map_or_else(Outcome::Err, |()| Outcome::Ok)); ctx.viol(&verdict_props_x("reset", st.failed_ever, &extra), "verdict", format!("verdict/reset/{}", res.as_ref().err().map_or("Ok", err_name)), format!("{}{:?}.reset{next:?} {why}", st.kind.name(), st.cfg), true); }
                     return;
                 }
                 if covers(st.held, need) {
@@ -1131,7 +1275,8 @@ pub fn run_decoder(ch: &mut Chooser, ctx: &mut Ctx) {
                 let res = match res {
                     Ok(v) => v,
                     Err(msg) => {
-                        report_panic(ctx, &st.kind.name(), "reset", &format!("reset{next:?}"), st.failed_ever, &msg);
+                        let extra = dec_history_props(ctx, &st, &DecCall::Reset(next.0, next.1, next.2), &Outcome::Panic);
+                        report_panic_x(ctx, &st.kind.name(), "reset", &format!("reset{next:?}"), st.failed_ever, &msg, &extra);
                         return;
                     }
                 };
@@ -1139,7 +1284,7 @@ pub fn run_decoder(ch: &mut Chooser, ctx: &mut Ctx) {
                 ctx.hash.feed_u64(res.as_ref().err().map_or(0, err_code));
                 ctx.count(if envelope::supported(st.kind.layer.family(), next.0, next.1) { "fault.F10.reset_bad_size" } else { "fault.F10.reset_bad_counts" });
                 if let Some(why) = judge(&res, &adm) {
-                    ctx.viol(&verdict_props("reset", st.failed_ever), "verdict", format!("verdict/reset-invalid/{}", res.as_ref().err().map_or("Ok", err_name)), format!("{}{:?}.reset{next:?} {why}", st.kind.name(), st.cfg), true);
+                    { let extra = dec_history_props(ctx, &st, &DecCall::Reset(next.0, next.1, next.2), &res.map_or_else(Outcome::Err, |()| Outcome::Ok)); ctx.viol(&verdict_props_x("reset", st.failed_ever, &extra), "verdict", format!("verdict/reset-invalid/{}", res.as_ref().err().map_or("Ok", err_name)), format!("{}{:?}.reset{next:?} {why}", st.kind.name(), st.cfg), true); }
                     return;
                 }
                 st.failed_round = true;
@@ -1173,7 +1318,8 @@ pub fn run_decoder(ch: &mut Chooser, ctx: &mut Ctx) {
                 let res = match res {
                     Ok(v) => v,
                     Err(msg) => {
-                        report_panic(ctx, &new_kind.name(), "new", &format!("new{next:?} on recycled work"), false, &msg);
+                        let fresh_ok = recycled && matches!(ctx.shadow(|| dec_new(new_kind, next.0, next.1, next.2, None).map(|_| ())), Ok(Ok(())));
+                        report_panic_x(ctx, &new_kind.name(), "new", &format!("new{next:?} on recycled work"), false, &msg, if fresh_ok { &["C05"] } else { &[] });
                         return;
                     }
                 };
@@ -1181,7 +1327,8 @@ pub fn run_decoder(ch: &mut Chooser, ctx: &mut Ctx) {
                 match res {
                     Ok(o) => obj = o,
                     Err(e) => {
-                        ctx.viol(&["C06", "C08"], "verdict", format!("verdict/new/{}", err_name(&e)), format!("{}::new{next:?} returned Err({e:?}) for a supported configuration", new_kind.name()), true);
+                        let fresh_ok = recycled && matches!(ctx.shadow(|| dec_new(new_kind, next.0, next.1, next.2, None).map(|_| ())), Ok(Ok(())));
+                        ctx.viol(if fresh_ok { &["C06", "C08", "C05"] } else { &["C06", "C08"] }, "verdict", format!("verdict/new/{}", err_name(&e)), format!("{}::new{next:?} returned Err({e:?}) for a supported configuration", new_kind.name()), true);
                         return;
                     }
                 }
@@ -1268,13 +1415,15 @@ fn dec_decode(ch: &mut Chooser, ctx: &mut Ctx, obj: &mut dyn DynDecoder, st: &mu
                 "result" => "result",
                 _ => "drop",
             };
-            return report_panic(ctx, &st.kind.name(), op, &format!("decode() [{stage}] with {}+{} of {k} shards", st.n_o, st.n_r), st.failed_ever, &msg);
+            let extra = dec_history_props(ctx, st, &DecCall::Decode, &Outcome::Panic);
+            return report_panic_x(ctx, &st.kind.name(), op, &format!("decode() [{stage}] with {}+{} of {k} shards", st.n_o, st.n_r), st.failed_ever, &msg, &extra);
         }
     };
     ev!(ctx, "#{op_no} decode() with {} original + {} recovery of k={k} -> {:?}", st.n_o, st.n_r, out.as_ref().map(|p| p.as_ref().map(|m| m.len())));
     ctx.hash.feed_u64(out.as_ref().err().map_or(0, err_code));
     if let Some(why) = judge(&out, &adm) {
-        let mut props = verdict_props("decode", st.failed_ever);
+        let extra = dec_history_props(ctx, st, &DecCall::Decode, &out.as_ref().map_or_else(|e| Outcome::Err(*e), |_| Outcome::Ok));
+        let mut props = verdict_props_x("decode", st.failed_ever, &extra);
         if adm.is_empty() {
             props.push("C01"); // enough valid shards but decode failed
         }
